@@ -11,6 +11,7 @@
 -/
 import SV.Proofs.NationalRules
 import SV.Props.C06
+import SV.Props.C02
 namespace SV.Props.C06
 open SV Spec
 
@@ -546,6 +547,114 @@ theorem live_iceland_iban (R : Registry) (hR : NoMethodNames R (bytes "IS")) (s 
       isoValid Gen.table (clean Gen.unicode s) = true ∧ iceland ((clean Gen.unicode s).drop 4) = true :=
   iban_accept_iff (Gen.ctx R) C10.unicode_wf C01.table_wf (err := fun _ => .invalidBBANChecksum)
     (fun b hb => live_iceland R hR b hb) s hcc
+
+/-! ### The ISO 7064 families at the same level (BA, ME, MK, PT, RS, SI, TL; MR, TN; BE) -/
+
+/-- A BBAN that fits the structure of a country of the live table has the country's length and
+    consists of ASCII digits and upper-case letters. -/
+theorem live_fits_facts {cc b : Str} {e : Country} (hl : Gen.table.lookup cc = some e)
+    (hf : fits e b = true) : b.length = e.bbanLength ∧ allAlnum b = true := by
+  have hW := C01.table_wf e (Table.lookup_mem hl).1
+  obtain ⟨l, hps, _, hexp⟩ := hW.spec
+  have hf' := hf
+  simp only [fits, hps] at hf'
+  have hlen := fitsClasses_len hf'
+  have hnb : clsAlnum (expandSpec l) = true := by
+    have := C02.live_no_blank_class
+    simp only [List.all_eq_true] at this
+    have h1 := this e (Table.lookup_mem hl).1
+    rw [hps] at h1
+    simp only [clsAlnum, List.all_eq_true, bne_iff_ne, ne_eq]
+    intro k hk hke
+    subst hke
+    simp only [Bool.not_eq_true', List.contains_eq_mem, decide_eq_false_iff_not] at h1
+    exact h1 hk
+  exact ⟨by rw [← hlen]; exact hexp, alnum_of_fits hf' hnb⟩
+
+theorem prefixAlgo_len {T : Table} {A : AlgoTable} {alg : NatAlgo} {cc : Str} {n : Nat}
+    (hp : prefixAlgo T A alg cc n = true) : ∃ e, T.lookup cc = some e ∧ e.bbanLength = n + 2 := by
+  unfold prefixAlgo at hp
+  cases hl : T.lookup cc with
+  | none => simp [hl] at hp
+  | some e =>
+    cases ha : A.get (defaultKey cc) with
+    | none => simp [hl, ha] at hp
+    | some a =>
+      simp only [hl, ha, Bool.and_eq_true, beq_iff_eq, decide_eq_true_eq] at hp
+      exact ⟨e, rfl, hp.1.2⟩
+
+/-- The seven `98 − r` countries on the live tables: every structure-conforming BBAN. -/
+theorem live_iso_default_rule (R : Registry) {p : String × Nat}
+    (hp : p ∈ [("BA", 14), ("ME", 16), ("MK", 13), ("PT", 19), ("RS", 16), ("SI", 13), ("TL", 17)])
+    (hR : NoMethodNames R (bytes p.1)) (b : Str) (hf : fitsCountry Gen.table (bytes p.1) b = true) :
+    BBAN.validateNational (Gen.ctx R) (bytes p.1) b =
+      if mod97_98 b p.2 then .ok true else .err .invalidBBANChecksum := by
+  have hall := live_iso_default
+  simp only [List.all_eq_true] at hall
+  have hpa := hall p hp
+  obtain ⟨e, hl, hbl⟩ := prefixAlgo_len hpa
+  unfold fitsCountry at hf
+  rw [hl] at hf
+  obtain ⟨hlen, hA⟩ := live_fits_facts hl hf
+  exact iso_default_rule (Gen.ctx R) C10.unicode_wf hpa hR (by rw [hlen, hbl]) hA (by
+    have : (Gen.ctx R).U.maxIntDigits = 4300 := rfl
+    rw [this, hlen, hbl]
+    simp only [List.mem_cons, List.mem_nil_iff, or_false] at hp
+    rcases hp with h | h | h | h | h | h | h <;> subst h <;> decide)
+
+/-- MR, TN (`97 − r`). -/
+theorem live_iso_variant_rule (R : Registry) {p : String × Nat} (hp : p ∈ [("MR", 21), ("TN", 18)])
+    (hR : NoMethodNames R (bytes p.1)) (b : Str) (hf : fitsCountry Gen.table (bytes p.1) b = true) :
+    BBAN.validateNational (Gen.ctx R) (bytes p.1) b =
+      if mod97_97 b p.2 then .ok true else .err .invalidBBANChecksum := by
+  have hall := live_iso_variant
+  simp only [List.all_eq_true] at hall
+  have hpa := hall p hp
+  obtain ⟨e, hl, hbl⟩ := prefixAlgo_len hpa
+  unfold fitsCountry at hf
+  rw [hl] at hf
+  obtain ⟨hlen, hA⟩ := live_fits_facts hl hf
+  exact iso_variant_rule (Gen.ctx R) C10.unicode_wf hpa hR (by rw [hlen, hbl]) hA (by
+    have : (Gen.ctx R).U.maxIntDigits = 4300 := rfl
+    rw [this, hlen, hbl]
+    simp only [List.mem_cons, List.mem_nil_iff, or_false] at hp
+    rcases hp with h | h <;> subst h <;> decide)
+
+/-- BE. -/
+theorem live_belgium_rule (R : Registry) (hR : NoMethodNames R (bytes "BE")) (b : Str)
+    (hf : fitsCountry Gen.table (bytes "BE") b = true) :
+    BBAN.validateNational (Gen.ctx R) (bytes "BE") b =
+      if belgium b then .ok true else .err .invalidBBANChecksum := by
+  obtain ⟨e, hl, hbl⟩ := prefixAlgo_len live_belgium
+  unfold fitsCountry at hf
+  rw [hl] at hf
+  obtain ⟨hlen, hA⟩ := live_fits_facts hl hf
+  exact belgium_rule (Gen.ctx R) C10.unicode_wf live_belgium hR (by rw [hlen, hbl]) hA (by
+    have : (Gen.ctx R).U.maxIntDigits = 4300 := rfl
+    rw [this, hlen, hbl]; decide)
+
+/-- …and at the IBAN level. -/
+theorem live_iso_default_iban (R : Registry) {p : String × Nat}
+    (hp : p ∈ [("BA", 14), ("ME", 16), ("MK", 13), ("PT", 19), ("RS", 16), ("SI", 13), ("TL", 17)])
+    (hR : NoMethodNames R (bytes p.1)) (s : Str) (hcc : (clean Gen.unicode s).take 2 = bytes p.1) :
+    (IBAN.new (Gen.ctx R) s false true).isOk = true ↔
+      isoValid Gen.table (clean Gen.unicode s) = true ∧ mod97_98 ((clean Gen.unicode s).drop 4) p.2 = true :=
+  iban_accept_iff (Gen.ctx R) C10.unicode_wf C01.table_wf (rule := fun b => mod97_98 b p.2)
+    (err := fun _ => .invalidBBANChecksum) (fun b hb => live_iso_default_rule R hp hR b hb) s hcc
+
+theorem live_iso_variant_iban (R : Registry) {p : String × Nat} (hp : p ∈ [("MR", 21), ("TN", 18)])
+    (hR : NoMethodNames R (bytes p.1)) (s : Str) (hcc : (clean Gen.unicode s).take 2 = bytes p.1) :
+    (IBAN.new (Gen.ctx R) s false true).isOk = true ↔
+      isoValid Gen.table (clean Gen.unicode s) = true ∧ mod97_97 ((clean Gen.unicode s).drop 4) p.2 = true :=
+  iban_accept_iff (Gen.ctx R) C10.unicode_wf C01.table_wf (rule := fun b => mod97_97 b p.2)
+    (err := fun _ => .invalidBBANChecksum) (fun b hb => live_iso_variant_rule R hp hR b hb) s hcc
+
+theorem live_belgium_iban (R : Registry) (hR : NoMethodNames R (bytes "BE")) (s : Str)
+    (hcc : (clean Gen.unicode s).take 2 = bytes "BE") :
+    (IBAN.new (Gen.ctx R) s false true).isOk = true ↔
+      isoValid Gen.table (clean Gen.unicode s) = true ∧ belgium ((clean Gen.unicode s).drop 4) = true :=
+  iban_accept_iff (Gen.ctx R) C10.unicode_wf C01.table_wf (err := fun _ => .invalidBBANChecksum)
+    (fun b hb => live_belgium_rule R hR b hb) s hcc
 
 /-! ### Non-vacuity: known valid account numbers satisfy the published rules, neighbours do not -/
 
